@@ -88,7 +88,7 @@ func newE2(t *rapid.T, root, tag string, prog *mrogen.Program, prop string, maxJ
 			}
 		}
 	}
-	src := prog.Source(nil)
+	src := prog.Source(runLayout(t))
 	opts := stagefn.Opts{NullPct: rapid.SampledFrom([]int{0, 0, 5}).Draw(t, "outNullPct"), ChunkChoices: []int{0, 1, 2, 3}}
 	model := refsem.Eval(prog, &opts)
 	if model.Unsupported != "" || len(model.Jobs) > maxJobs || len(model.Jobs) < 1 {
